@@ -4,6 +4,8 @@ functions, hypotheses used by the property theorems.
 -/
 import GlotaranModel.C20
 import GlotaranModel.Generated.C20
+import GlotaranModel.Generated.C20Validators
+import GlotaranModel.Generated.C20Walker
 namespace Glotaran.C20
 
 deriving instance DecidableEq for Except
@@ -108,69 +110,115 @@ theorem findItem_of_hasLabel {c : Coll} {l : String} (h : c.hasLabel l = true) :
 
 /-! ### hypotheses of the property theorems -/
 
-/-- the value of every reference attribute has the declared structure; the lists the
-    validators measure are lists -/
-def ShapeOK (it : Item) (a : AttrSpec) : Prop :=
+/-- the values a validator predicate reads have the shape it expects -/
+def PredShapeOK (it : Item) (a : AttrSpec) : VPred → Prop
+  | .resolved _ _ _ _ => it.valOf a.name = .none ∨ ∃ ls, it.valOf a.name = .list ls
+  | .lengthsEqual as => ∀ x ∈ as, ∃ n, lenOf it x = .ok n
+  | .definedIn _ _ => ∃ ls, plainLabels it a.name = .ok ls
+  | .opaque _ => True
+  | .untranslatable _ => True
+
+/-- the value of every reference attribute has the declared structure; the values the
+    validators read have the shape they expect -/
+def ShapeOK (vt : VTable) (it : Item) (a : AttrSpec) : Prop :=
   (a.kind ≠ .plain → ∃ ls, it.labels a = .ok ls) ∧
-  (a.validator = .megacomplexes →
-    it.valOf a.name = .none ∨ ∃ ls, it.valOf a.name = .list ls) ∧
-  (∀ as, a.validator = .sameLength as → ∀ x ∈ as, ∃ n, lenOf it x = .ok n)
+  (∀ n, a.validator = .named n → PredShapeOK it a (predOf vt n))
 
-def WellShaped (sch : Schema) (m : Model) : Prop :=
-  ∀ it ∈ allItems m, ∀ a ∈ (specOf sch it.spec).attrs, ShapeOK it a
+def WellShaped (vt : VTable) (sch : Schema) (m : Model) : Prop :=
+  ∀ it ∈ allItems m, ∀ a ∈ (specOf sch it.spec).attrs, ShapeOK vt it a
 
-/-- every collection the schema refers to exists in the model (`getattr(model, name)`) -/
-def Closed (sch : Schema) (m : Model) : Prop :=
+/-- the collection a validator predicate looks labels up in -/
+def predColl : VPred → Option String
+  | .resolved c _ _ _ => some c
+  | .definedIn c _ => some c
+  | _ => none
+
+/-- every collection the schema and the validators refer to exists in the model
+    (`getattr(model, name)` / `model.<name>`) -/
+def Closed (vt : VTable) (sch : Schema) (m : Model) : Prop :=
   ∀ it ∈ allItems m, ∀ a ∈ (specOf sch it.spec).attrs,
     (∀ c, a.kind = .item c → ∃ x, findColl m c = some x) ∧
-    (a.validator = .megacomplexes → ∃ x, findColl m "megacomplex" = some x)
+    (∀ n c, a.validator = .named n → predColl (predOf vt n) = some c → ∃ x, findColl m c = some x)
 
-/-- executable form of `ShapeOK` (used to show that the hypotheses are satisfiable) -/
-def shapeOKB (it : Item) (a : AttrSpec) : Bool :=
+/-- a validator that resolves labels guards against `None` and skips undefined labels (the code
+    after fix D11); a table entry without these raises `TypeError` / `KeyError` on some models -/
+def predSafe : VPred → Bool
+  | .resolved _ g s _ => g && s
+  | _ => true
+
+def tableSafe (vt : VTable) : Bool := vt.all (fun e => predSafe e.2)
+
+theorem predOf_safe {vt : VTable} (h : tableSafe vt = true) (n : String) :
+    predSafe (predOf vt n) = true := by
+  unfold predOf
+  cases hf : vt.find? (fun p => p.1 = n) with
+  | none => rfl
+  | some e =>
+    simp only [tableSafe, List.all_eq_true] at h
+    exact h e (List.mem_of_find?_eq_some hf)
+
+/-- executable forms (used to show that the hypotheses are satisfiable) -/
+def predShapeOKB (it : Item) (a : AttrSpec) : VPred → Bool
+  | .resolved _ _ _ _ => (match it.valOf a.name with
+      | .none => true
+      | .list _ => true
+      | _ => false)
+  | .lengthsEqual as => as.all (fun x => (lenOf it x).isOk)
+  | .definedIn _ _ => (plainLabels it a.name).isOk
+  | _ => true
+
+def shapeOKB (vt : VTable) (it : Item) (a : AttrSpec) : Bool :=
   (decide (a.kind = .plain) || (it.labels a).isOk) &&
   (match a.validator with
-    | .megacomplexes => (match it.valOf a.name with
-        | .none => true
-        | .list _ => true
-        | _ => false)
-    | .sameLength as => as.all (fun x => (lenOf it x).isOk)
-    | _ => true)
+    | .named n => predShapeOKB it a (predOf vt n)
+    | .none => true)
 
-def wellShapedB (sch : Schema) (m : Model) : Bool :=
-  (allItems m).all fun it => (specOf sch it.spec).attrs.all fun a => shapeOKB it a
+def wellShapedB (vt : VTable) (sch : Schema) (m : Model) : Bool :=
+  (allItems m).all fun it => (specOf sch it.spec).attrs.all fun a => shapeOKB vt it a
 
 theorem isOk_ok {α : Type} {x : Except Err α} (h : x.isOk = true) : ∃ r, x = .ok r := by
   cases x with
   | ok r => exact ⟨r, rfl⟩
   | error e => simp [Except.isOk, Except.toBool] at h
 
-theorem wellShaped_of_check {sch : Schema} {m : Model} (h : wellShapedB sch m = true) :
-    WellShaped sch m := by
+theorem predShapeOK_of_check {it : Item} {a : AttrSpec} {p : VPred}
+    (h : predShapeOKB it a p = true) : PredShapeOK it a p := by
+  cases p with
+  | resolved c g s rs =>
+    simp only [predShapeOKB] at h
+    simp only [PredShapeOK]
+    cases hval : it.valOf a.name with
+    | none => exact Or.inl rfl
+    | list ls => exact Or.inr ⟨ls, rfl⟩
+    | scalar l => simp [hval] at h
+    | dict kvs => simp [hval] at h
+  | lengthsEqual as =>
+    simp only [predShapeOKB, List.all_eq_true] at h
+    intro x hx
+    exact isOk_ok (h x hx)
+  | definedIn c r => exact isOk_ok h
+  | «opaque» n => trivial
+  | untranslatable r => trivial
+
+theorem wellShaped_of_check {vt : VTable} {sch : Schema} {m : Model}
+    (h : wellShapedB vt sch m = true) : WellShaped vt sch m := by
   intro it hit a ha
   simp only [wellShapedB, List.all_eq_true] at h
   have hb := h it hit a ha
   simp only [shapeOKB, Bool.and_eq_true, Bool.or_eq_true, decide_eq_true_eq] at hb
   obtain ⟨h1, h2⟩ := hb
-  refine ⟨?_, ?_, ?_⟩
+  refine ⟨?_, ?_⟩
   · intro hk
     rcases h1 with h1 | h1
     · exact absurd h1 hk
     · exact isOk_ok h1
-  · intro hv
+  · intro n hv
     rw [hv] at h2
-    cases hval : it.valOf a.name with
-    | none => exact Or.inl rfl
-    | list ls => exact Or.inr ⟨ls, rfl⟩
-    | scalar l => simp [hval] at h2
-    | dict kvs => simp [hval] at h2
-  · intro as hv x hx
-    rw [hv] at h2
-    simp only [List.all_eq_true] at h2
-    exact isOk_ok (h2 x hx)
+    exact predShapeOK_of_check h2
 
 /-! ### per-attribute functions -/
 
-theorem attrItemIssues_isOk {m : Model} {it : Item} {a : AttrSpec} (hs : ShapeOK it a)
+theorem attrItemIssues_isOk {vt : VTable} {m : Model} {it : Item} {a : AttrSpec} (hs : ShapeOK vt it a)
     (hc : ∀ c, a.kind = .item c → ∃ x, findColl m c = some x) :
     ∃ r, attrItemIssues m it a = .ok r := by
   unfold attrItemIssues
@@ -227,7 +275,8 @@ theorem attrItemIssues_mem {m : Model} {it : Item} {a : AttrSpec} {r : List Issu
     cases h
     simp
 
-theorem attrParamIssues_isOk {ps : List String} {it : Item} {a : AttrSpec} (hs : ShapeOK it a) :
+theorem attrParamIssues_isOk {vt : VTable} {ps : List String} {it : Item} {a : AttrSpec}
+    (hs : ShapeOK vt it a) :
     ∃ r, attrParamIssues ps it a = .ok r := by
   unfold attrParamIssues
   cases hk : a.kind with
@@ -266,76 +315,313 @@ theorem attrParamIssues_mem {ps : List String} {it : Item} {a : AttrSpec} {r : L
     cases h
     simp
 
-theorem attrValidatorIssues_isOk {cv : CustomValidators} {sch : Schema} {m : Model} {it : Item}
-    {a : AttrSpec} (hs : ShapeOK it a)
-    (hc : a.validator = .megacomplexes → ∃ x, findColl m "megacomplex" = some x) :
-    ∃ r, attrValidatorIssues cv sch m it a = .ok r := by
-  unfold attrValidatorIssues
-  cases hv : a.validator with
-  | none => simp
-  | megacomplexes =>
-    obtain ⟨x, hx⟩ := hc hv
-    simp only [megacomplexValidator]
-    rcases hs.2.1 hv with h | ⟨ls, h⟩
-    · simp [h]
-    · simp [h, hx]
-  | sameLength as =>
-    obtain ⟨lens, hl⟩ := collectM_isOk (f := lenOf it) (l := as) (fun x hx => hs.2.2 as hv x hx)
-    simp [hl]
-  | custom n => simp
+/-! ### the rules of `get_megacomplex_issues` -/
 
-/-- the validators never produce "missing item" / "missing parameter" issues -/
-theorem megacomplexIssues_kind {sch : Schema} {mcs : List Item} {i : Issue}
-    (h : i ∈ megacomplexIssues sch mcs) :
+/-- what a rule list demands of the resolved megacomplexes, as a specification: a megacomplex whose
+    class carries the flag of a rule is counted at most `bound` times -/
+def RulesOK (sch : Schema) (rules : List McRule) (mcs : List Item) : Prop :=
+  ∀ mc ∈ mcs, ∀ r ∈ rules, flagOf sch r.flag mc = true → countOf mcs mc r.count ≤ r.bound
+
+theorem ruleIssues_nil_iff (sch : Schema) (rules : List McRule) (mcs : List Item) :
+    ruleIssues sch rules mcs = [] ↔ RulesOK sch rules mcs := by
+  simp only [ruleIssues, List.flatMap_eq_nil_iff, List.map_eq_nil_iff, List.filter_eq_nil_iff,
+    RulesOK, ruleFires]
+  constructor
+  · intro h mc hmc r hr hf
+    have := h mc hmc r hr
+    simp only [hf, Bool.true_and, decide_eq_true_eq] at this
+    omega
+  · intro h mc hmc r hr
+    have := h mc hmc r hr
+    simp only [Bool.and_eq_true, decide_eq_true_eq, not_and]
+    intro hf
+    have := this hf
+    omega
+
+theorem ruleIssues_kind {sch : Schema} {rules : List McRule} {mcs : List Item} {i : Issue}
+    (h : i ∈ ruleIssues sch rules mcs) :
     (∃ l t, i = .exclusive l t) ∨ (∃ l t, i = .unique l t) := by
-  simp only [megacomplexIssues, List.mem_flatMap, List.mem_append] at h
-  obtain ⟨mc, _, h | h⟩ := h
-  · split at h
-    · simp at h; exact Or.inl ⟨_, _, h⟩
-    · cases h
-  · split at h
-    · simp at h; exact Or.inr ⟨_, _, h⟩
-    · cases h
+  simp only [ruleIssues, List.mem_flatMap, List.mem_map] at h
+  obtain ⟨mc, _, r, _, rfl⟩ := h
+  cases hr : r.issue with
+  | exclusive => exact Or.inl ⟨_, _, rfl⟩
+  | unique => exact Or.inr ⟨_, _, rfl⟩
 
-theorem attrValidatorIssues_kind {cv : CustomValidators} {sch : Schema} {m : Model} {it : Item}
-    {a : AttrSpec} {r : List Issue} (h : attrValidatorIssues cv sch m it a = .ok r) {i : Issue}
-    (hi : i ∈ r) : (∀ c l, i ≠ .missingItem c l) ∧ (∀ l, i ≠ .missingParam l) := by
-  unfold attrValidatorIssues at h
-  cases hv : a.validator with
-  | none => simp only [hv] at h; cases h; cases hi
-  | megacomplexes =>
-    simp only [hv, megacomplexValidator] at h
+/-- the two rules of the code: exclusive megacomplexes stand alone, unique ones once per class -/
+def stdRules : List McRule :=
+  [⟨.exclusive, .all, 1, .exclusive⟩, ⟨.unique, .sameClass, 1, .unique⟩]
+
+/-- the rule of `get_megacomplex_issues`, as a specification -/
+def ExclusiveUniqueOK (sch : Schema) (mcs : List Item) : Prop :=
+  ∀ mc ∈ mcs,
+    ((specOf sch mc.spec).exclusive = true → mcs.length ≤ 1) ∧
+    ((specOf sch mc.spec).unique = true →
+      (mcs.filter (fun x => x.spec = mc.spec)).length ≤ 1)
+
+theorem rulesOK_std_iff (sch : Schema) (mcs : List Item) :
+    RulesOK sch stdRules mcs ↔ ExclusiveUniqueOK sch mcs := by
+  simp only [RulesOK, stdRules, ExclusiveUniqueOK, List.mem_cons, List.not_mem_nil, or_false]
+  constructor
+  · intro h mc hmc
+    exact ⟨fun he => h mc hmc _ (Or.inl rfl) he, fun hu => h mc hmc _ (Or.inr rfl) hu⟩
+  · intro h mc hmc r hr hf
+    rcases hr with rfl | rfl
+    · exact (h mc hmc).1 hf
+    · exact (h mc hmc).2 hf
+
+theorem resolveLabels_ok {c : Coll} {coll : String} {skip : Bool} :
+    ∀ {ls : List String} {mcs : List Item}, resolveLabels c coll skip ls = .ok mcs →
+      mcs = ls.filterMap c.findItem := by
+  cases skip with
+  | true =>
+    intro ls mcs h
+    simp only [resolveLabels, if_true, Except.ok.injEq] at h
+    exact h.symm
+  | false =>
+    intro ls
+    induction ls with
+    | nil =>
+      intro mcs h
+      simp [resolveLabels, collectM] at h
+      simp [h]
+    | cons l ls ih =>
+      intro mcs h
+      simp only [resolveLabels, Bool.false_eq_true, if_false] at h ih
+      obtain ⟨bs, cs, hbs, hcs, rfl⟩ := collectM_ok_cons h
+      cases hf : c.findItem l with
+      | none => simp [hf] at hbs
+      | some t =>
+        simp only [hf, Except.ok.injEq] at hbs
+        subst hbs
+        simp [hf, ih hcs]
+
+theorem allSame_false_iff (lens : List Nat) :
+    allSame lens = false ↔ ∃ x ∈ lens, ∃ y ∈ lens, x ≠ y := by
+  cases lens with
+  | nil => simp [allSame]
+  | cons n ns =>
+    simp only [allSame]
+    constructor
+    · intro h
+      simp only [List.all_eq_false, decide_eq_true_eq] at h
+      obtain ⟨k, hk, hne⟩ := h
+      exact ⟨k, by simp [hk], n, by simp, hne⟩
+    · rintro ⟨x, hx, y, hy, hne⟩
+      apply Bool.eq_false_iff.mpr
+      intro hall
+      simp only [List.all_eq_true, decide_eq_true_eq] at hall
+      have hxn : x = n := by
+        rcases List.mem_cons.mp hx with h | h
+        · exact h
+        · exact hall x h
+      have hyn : y = n := by
+        rcases List.mem_cons.mp hy with h | h
+        · exact h
+        · exact hall y h
+      exact hne (hxn.trans hyn.symm)
+
+/-! ### the interpreter of the validator predicates -/
+
+/-- when a validator has something to complain about — a specification that does not mention the
+    interpreter: the resolved megacomplexes break a rule / two measured lengths differ / a stored
+    label is not a label of the collection -/
+def Violated (sch : Schema) (m : Model) (it : Item) (a : AttrSpec) : VPred → Prop
+  | .resolved coll _ _ rules => ∃ ls c, it.valOf a.name = .list ls ∧ findColl m coll = some c ∧
+      ¬ RulesOK sch rules (ls.filterMap c.findItem)
+  | .lengthsEqual as => ∃ lens, collectM (lenOf it) as = .ok lens ∧ ∃ x ∈ lens, ∃ y ∈ lens, x ≠ y
+  | .definedIn coll _ => ∃ ls c l, plainLabels it a.name = .ok ls ∧ findColl m coll = some c ∧
+      l ∈ ls ∧ c.hasLabel l = false
+  | .opaque _ => False
+  | .untranslatable _ => False
+
+theorem interpPred_isOk {cv : CustomValidators} {sch : Schema} {m : Model} {it : Item}
+    {a : AttrSpec} {p : VPred} (hs : PredShapeOK it a p)
+    (hc : ∀ c, predColl p = some c → ∃ x, findColl m c = some x) (hsafe : predSafe p = true) :
+    ∃ r, interpPred cv sch m it a p = .ok r := by
+  cases p with
+  | resolved coll g s rules =>
+    simp only [predSafe, Bool.and_eq_true] at hsafe
+    obtain ⟨hg, hsk⟩ := hsafe
+    subst hg hsk
+    obtain ⟨x, hx⟩ := hc coll rfl
+    rcases hs with h | ⟨ls, h⟩
+    · simp [interpPred, h]
+    · simp [interpPred, h, hx, resolveLabels]
+  | lengthsEqual as =>
+    obtain ⟨lens, hl⟩ := collectM_isOk (f := lenOf it) (l := as) (fun x hx => hs x hx)
+    simp [interpPred, hl]
+  | definedIn coll r =>
+    obtain ⟨ls, hls⟩ := hs
+    obtain ⟨x, hx⟩ := hc coll rfl
+    simp [interpPred, hls, hx]
+  | «opaque» n => simp [interpPred]
+  | untranslatable r => simp [interpPred]
+
+/-- **the interpreter meets the specification**: a translated validator returns issues exactly
+    when it is violated -/
+theorem interpPred_nonempty_iff {cv : CustomValidators} {sch : Schema} {m : Model} {it : Item}
+    {a : AttrSpec} {p : VPred} {r : List Issue} (ht : p.translated = true)
+    (h : interpPred cv sch m it a p = .ok r) : r ≠ [] ↔ Violated sch m it a p := by
+  cases p with
+  | resolved coll g s rules =>
+    simp only [interpPred] at h
+    simp only [Violated]
+    cases hval : it.valOf a.name with
+    | none =>
+      simp only [hval] at h
+      split at h
+      · cases h; simp
+      · cases h
+    | scalar l => simp [hval] at h
+    | dict kvs => simp [hval] at h
+    | list ls =>
+      simp only [hval] at h
+      cases hcc : findColl m coll with
+      | none => simp [hcc] at h
+      | some c =>
+        simp only [hcc] at h
+        cases hr : resolveLabels c coll s ls with
+        | error e => simp [hr] at h
+        | ok mcs =>
+          simp only [hr, Except.ok.injEq] at h
+          subst h
+          have hm := resolveLabels_ok hr
+          subst hm
+          rw [Ne, ruleIssues_nil_iff]
+          constructor
+          · intro hbad
+            exact ⟨ls, c, rfl, rfl, hbad⟩
+          · rintro ⟨ls', c', hl', hc', hbad⟩
+            cases hl'
+            cases hc'
+            exact hbad
+  | lengthsEqual as =>
+    simp only [interpPred] at h
+    simp only [Violated]
+    cases hl : collectM (lenOf it) as with
+    | error e => simp [hl] at h
+    | ok lens =>
+      simp only [hl, Except.ok.injEq] at h
+      subst h
+      cases hs : allSame lens with
+      | true =>
+        simp only [if_true, ne_eq, not_true_eq_false, false_iff]
+        rintro ⟨lens', hl', hx⟩
+        cases hl'
+        have := (allSame_false_iff lens).mpr hx
+        rw [hs] at this
+        cases this
+      | false =>
+        simp only [Bool.false_eq_true, if_false, ne_eq, List.cons_ne_nil, not_false_eq_true, true_iff]
+        exact ⟨lens, rfl, (allSame_false_iff lens).mp hs⟩
+  | definedIn coll rep =>
+    simp only [interpPred] at h
+    simp only [Violated]
+    cases hl : plainLabels it a.name with
+    | error e => simp [hl] at h
+    | ok ls =>
+      simp only [hl] at h
+      cases hcc : findColl m coll with
+      | none => simp [hcc] at h
+      | some c =>
+        simp only [hcc, Except.ok.injEq] at h
+        subst h
+        constructor
+        · intro hne
+          obtain ⟨i, hi⟩ := List.exists_mem_of_ne_nil _ hne
+          simp only [List.mem_map, List.mem_filter] at hi
+          obtain ⟨l, ⟨hl', hno⟩, _⟩ := hi
+          exact ⟨ls, c, l, rfl, rfl, hl', by simpa using hno⟩
+        · rintro ⟨ls', c', l, hls', hc', hl', hno⟩
+          cases hls'
+          cases hc'
+          intro hnil
+          have : Issue.missingItem rep l ∈
+              ((ls.filter (fun x => !c.hasLabel x)).map (Issue.missingItem rep)) :=
+            List.mem_map.mpr ⟨l, List.mem_filter.mpr ⟨hl', by simp [hno]⟩, rfl⟩
+          rw [hnil] at this
+          cases this
+  | «opaque» n => simp [VPred.translated] at ht
+  | untranslatable r => simp [VPred.translated] at ht
+
+/-- the validators never produce "missing parameter" issues -/
+theorem interpPred_noParam {cv : CustomValidators} {sch : Schema} {m : Model} {it : Item}
+    {a : AttrSpec} {p : VPred} {r : List Issue} (h : interpPred cv sch m it a p = .ok r)
+    {i : Issue} (hi : i ∈ r) : ∀ l, i ≠ .missingParam l := by
+  cases p with
+  | resolved coll g s rules =>
+    simp only [interpPred] at h
     split at h
-    · cases h; cases hi
+    · split at h
+      · cases h; cases hi
+      · cases h
     · split at h
       · cases h
-      · cases h
-        rcases megacomplexIssues_kind hi with ⟨l, t, rfl⟩ | ⟨l, t, rfl⟩ <;> simp
+      · split at h
+        · cases h
+        · cases h
+          rcases ruleIssues_kind hi with ⟨l, t, rfl⟩ | ⟨l, t, rfl⟩ <;> simp
     · cases h
-  | sameLength as =>
-    simp only [hv] at h
+  | lengthsEqual as =>
+    simp only [interpPred] at h
     split at h
     · cases h
     · cases h
       split at hi
       · cases hi
       · simp at hi; subst hi; simp
-  | custom n =>
-    simp only [hv] at h
-    cases h
+  | definedIn coll rep =>
+    simp only [interpPred] at h
+    split at h
+    · cases h
+    · split at h
+      · cases h
+      · cases h
+        simp only [List.mem_map] at hi
+        obtain ⟨x, _, rfl⟩ := hi
+        simp
+  | «opaque» n =>
+    simp only [interpPred, Except.ok.injEq] at h
+    subst h
+    simp only [List.mem_map] at hi
+    obtain ⟨x, _, rfl⟩ := hi
+    simp
+  | untranslatable n =>
+    simp only [interpPred, Except.ok.injEq] at h
+    subst h
     simp only [List.mem_map] at hi
     obtain ⟨x, _, rfl⟩ := hi
     simp
 
+theorem attrValidatorIssues_isOk {cv : CustomValidators} {vt : VTable} {sch : Schema} {m : Model}
+    {it : Item} {a : AttrSpec} (hs : ShapeOK vt it a)
+    (hc : ∀ n c, a.validator = .named n → predColl (predOf vt n) = some c →
+      ∃ x, findColl m c = some x) (hsafe : tableSafe vt = true) :
+    ∃ r, attrValidatorIssues cv vt sch m it a = .ok r := by
+  unfold attrValidatorIssues
+  cases hv : a.validator with
+  | none => exact ⟨[], rfl⟩
+  | named n => exact interpPred_isOk (hs.2 n hv) (fun c hcc => hc n c hv hcc) (predOf_safe hsafe n)
+
+theorem attrValidatorIssues_kind {cv : CustomValidators} {vt : VTable} {sch : Schema} {m : Model}
+    {it : Item} {a : AttrSpec} {r : List Issue} (h : attrValidatorIssues cv vt sch m it a = .ok r)
+    {i : Issue} (hi : i ∈ r) : ∀ l, i ≠ .missingParam l := by
+  unfold attrValidatorIssues at h
+  cases hv : a.validator with
+  | none => simp only [hv] at h; cases h; cases hi
+  | named n =>
+    simp only [hv] at h
+    exact interpPred_noParam h hi
+
 /-! ### items -/
 
 /-- decomposition of `get_item_issues` -/
-theorem itemIssues_ok {cv : CustomValidators} {sch : Schema} {m : Model}
+theorem itemIssues_ok {cv : CustomValidators} {vt : VTable} {sch : Schema} {m : Model}
     {ps : Option (List String)} {it : Item} {r : List Issue}
-    (h : itemIssues cv sch m ps it = .ok r) :
+    (h : itemIssues cv vt sch m ps it = .ok r) :
     ∃ i1 i2 i3,
       collectM (attrItemIssues m it) (specOf sch it.spec).attrs = .ok i1 ∧
-      collectM (attrValidatorIssues cv sch m it) (specOf sch it.spec).attrs = .ok i2 ∧
+      collectM (attrValidatorIssues cv vt sch m it) (specOf sch it.spec).attrs = .ok i2 ∧
       (match ps with
         | none => i3 = []
         | some P => collectM (attrParamIssues P it) (specOf sch it.spec).attrs = .ok i3) ∧
@@ -360,17 +646,18 @@ theorem itemIssues_ok {cv : CustomValidators} {sch : Schema} {m : Model}
           cases h
           exact ⟨i1, i2, i3, h1, h2, h3, rfl⟩
 
-theorem itemIssues_isOk {cv : CustomValidators} {sch : Schema} {m : Model}
+theorem itemIssues_isOk {cv : CustomValidators} {vt : VTable} {sch : Schema} {m : Model}
     {ps : Option (List String)} {it : Item}
-    (hs : ∀ a ∈ (specOf sch it.spec).attrs, ShapeOK it a)
+    (hs : ∀ a ∈ (specOf sch it.spec).attrs, ShapeOK vt it a)
     (hc : ∀ a ∈ (specOf sch it.spec).attrs,
       (∀ c, a.kind = .item c → ∃ x, findColl m c = some x) ∧
-      (a.validator = .megacomplexes → ∃ x, findColl m "megacomplex" = some x)) :
-    ∃ r, itemIssues cv sch m ps it = .ok r := by
+      (∀ n c, a.validator = .named n → predColl (predOf vt n) = some c →
+        ∃ x, findColl m c = some x)) (hsafe : tableSafe vt = true) :
+    ∃ r, itemIssues cv vt sch m ps it = .ok r := by
   obtain ⟨i1, h1⟩ := collectM_isOk (f := attrItemIssues m it)
     (fun a ha => attrItemIssues_isOk (hs a ha) (hc a ha).1)
-  obtain ⟨i2, h2⟩ := collectM_isOk (f := attrValidatorIssues cv sch m it)
-    (fun a ha => attrValidatorIssues_isOk (hs a ha) (hc a ha).2)
+  obtain ⟨i2, h2⟩ := collectM_isOk (f := attrValidatorIssues cv vt sch m it)
+    (fun a ha => attrValidatorIssues_isOk (hs a ha) (hc a ha).2 hsafe)
   cases ps with
   | none => exact ⟨i1 ++ i2, by simp [itemIssues, h1, h2]⟩
   | some P =>
@@ -378,56 +665,18 @@ theorem itemIssues_isOk {cv : CustomValidators} {sch : Schema} {m : Model}
       (fun a ha => attrParamIssues_isOk (hs a ha))
     exact ⟨i1 ++ i2 ++ i3, by simp [itemIssues, h1, h2, h3]⟩
 
-/-! ### exclusive / unique -/
-
-/-- the rule of `get_megacomplex_issues`, as a specification -/
-def ExclusiveUniqueOK (sch : Schema) (mcs : List Item) : Prop :=
-  ∀ mc ∈ mcs,
-    ((specOf sch mc.spec).exclusive = true → mcs.length ≤ 1) ∧
-    ((specOf sch mc.spec).unique = true →
-      (mcs.filter (fun x => x.spec = mc.spec)).length ≤ 1)
-
-theorem megacomplexIssues_nil_iff (sch : Schema) (mcs : List Item) :
-    megacomplexIssues sch mcs = [] ↔ ExclusiveUniqueOK sch mcs := by
-  simp only [megacomplexIssues, List.flatMap_eq_nil_iff, List.append_eq_nil_iff, ExclusiveUniqueOK]
-  constructor
-  · intro h mc hmc
-    obtain ⟨h1, h2⟩ := h mc hmc
-    constructor
-    · intro he
-      by_cases hl : mcs.length > 1
-      · simp [he, hl] at h1
-      · omega
-    · intro hu
-      by_cases hl : (mcs.filter (fun x => x.spec = mc.spec)).length > 1
-      · simp [hu, hl] at h2
-      · omega
-  · intro h mc hmc
-    obtain ⟨h1, h2⟩ := h mc hmc
-    constructor
-    · split
-      · rename_i hc
-        simp only [Bool.and_eq_true, decide_eq_true_eq] at hc
-        have := h1 hc.1
-        omega
-      · rfl
-    · split
-      · rename_i hc
-        simp only [Bool.and_eq_true, decide_eq_true_eq] at hc
-        have := h2 hc.1
-        omega
-      · rfl
-
 /-! ### schema-level checks (decided on the generated table) -/
 
-def schemaClosed (sch : Schema) (colls : List String) : Bool :=
+def schemaClosed (vt : VTable) (sch : Schema) (colls : List String) : Bool :=
   sch.all fun s => s.attrs.all fun a =>
     (match a.kind with
       | .item c => colls.contains c
       | _ => true) &&
     (match a.validator with
-      | .megacomplexes => colls.contains "megacomplex"
-      | _ => true)
+      | .named n => (match predColl (predOf vt n) with
+          | some c => colls.contains c
+          | none => true)
+      | .none => true)
 
 theorem specOf_mem_or_empty (sch : Schema) (key : String) :
     specOf sch key ∈ sch ∨ (specOf sch key).attrs = [] := by
@@ -436,9 +685,9 @@ theorem specOf_mem_or_empty (sch : Schema) (key : String) :
   | some s => exact Or.inl (List.mem_of_find?_eq_some h)
   | none => exact Or.inr rfl
 
-theorem closed_of_schemaClosed {sch : Schema} {colls : List String} {m : Model}
-    (h : schemaClosed sch colls = true) (hm : ∀ c ∈ colls, ∃ x, findColl m c = some x) :
-    Closed sch m := by
+theorem closed_of_schemaClosed {vt : VTable} {sch : Schema} {colls : List String} {m : Model}
+    (h : schemaClosed vt sch colls = true) (hm : ∀ c ∈ colls, ∃ x, findColl m c = some x) :
+    Closed vt sch m := by
   intro it _ a ha
   rcases specOf_mem_or_empty sch it.spec with hs | hs
   · simp only [schemaClosed, List.all_eq_true, Bool.and_eq_true] at h
@@ -447,9 +696,10 @@ theorem closed_of_schemaClosed {sch : Schema} {colls : List String} {m : Model}
     · intro c hk
       rw [hk] at h1
       exact hm c (by simpa using h1)
-    · intro hv
+    · intro n c hv hcc
       rw [hv] at h2
-      exact hm "megacomplex" (by simpa using h2)
+      simp only [hcc] at h2
+      exact hm c (by simpa using h2)
   · rw [hs] at ha; cases ha
 
 /-- keyed collections of the generated model class -/
